@@ -1,4 +1,5 @@
 import ShpanVerif.Drive.PipeCommon
+import ShpanVerif.Drive.PipeDyn
 /-
 Driver handler for C03 (sequential part): a fault (error / panic(error) / panic(value)) at a call position
 of the fault-free run must surface: the terminal returns an error whose chain contains the injected error
@@ -32,6 +33,7 @@ def specRun (p : Pipe) (r : Run) (o : ObsRun) : Bool × String :=
       | none => (true, "")
 
 def handle (c obs : String) : String × Bool × String :=
+  if c.startsWith "DYN " then ShpanVerif.Drive.PipeDyn.handle c obs else   -- FlatMap family (Model/PipeDyn.lean)
   if isSpecOnly c then
     -- operators outside the model (sequential): a fault whose call position was reached must surface with the
     -- injected root, and what was delivered must be a prefix of what the same case delivers without the fault
